@@ -61,6 +61,7 @@ def main(argv=None):
         ctx, mod = run_property(prop, args.tier)
         selftest_res = None
         sweep_res = None
+        benign_res = None
         if args.tier == "thorough" and not args.no_selftest:
             from .selftest import runner
             selftest_res = runner.run_for(prop, jobs=int(os.environ.get("SA_JOBS", "16")))
@@ -68,6 +69,9 @@ def main(argv=None):
                 from .selftest import automut
                 sweep_res = automut.sweep(prop, max_edits=int(os.environ.get("SA_SWEEP_MAX", "240")),
                                           jobs=int(os.environ.get("SA_JOBS", "16")), seed=seed)
+                from .selftest import benignmut
+                benign_res = benignmut.sweep(prop, max_edits=int(os.environ.get("SA_BENIGN_MAX", "160")),
+                                             jobs=int(os.environ.get("SA_JOBS", "16")), seed=seed)
     except AnalysisError as e:
         print("ANALYSIS-ERROR property=%s %s" % (prop, e))
         return 2
@@ -132,6 +136,14 @@ def main(argv=None):
                              "rules constrain")
         cov["mutation_sweep"] = sweep_res
         cov["evaluations"] += sweep_res["edits_run"]
+    if benign_res is not None:
+        benign_res["false_alarms"] = benign_res["false_alarms"][:40]
+        benign_res["analysis_errors"] = benign_res["analysis_errors"][:40]
+        benign_res["note"] = ("behaviour-preserving single-point rewrites of the anchored functions (mirrored comparisons, "
+                              "swapped branches, renamed locals, hoisted returns, ...); every one must leave the check "
+                              "silent - a 'false-alarm' here is a defect of a rule, never of the code")
+        cov["robustness_sweep"] = benign_res
+        cov["evaluations"] += benign_res["edits_run"]
     ev = {
         "property_id": prop,
         "tier": args.tier,
@@ -160,6 +172,10 @@ def main(argv=None):
     if sweep_res is not None:
         print("mutation sweep: %d edits of %d anchored functions: %s" % (
             sweep_res["edits_run"], len(sweep_res["anchored_functions"]), json.dumps(sweep_res["result"])))
+    if benign_res is not None:
+        print("robustness sweep: %d behaviour-preserving rewrites: %s" % (benign_res["edits_run"], json.dumps(benign_res["result"])))
+        for x in benign_res["false_alarms"][:10]:
+            print("ROBUSTNESS-FALSE-ALARM %s" % x[:300])
     if selftest_res is not None:
         print("selftest: breaking fired %d/%d, benign silent %d/%d, skipped %d" % (
             selftest_res["breaking_fired"], selftest_res["breaking_total"],
